@@ -22,6 +22,7 @@ func init() {
 			),
 			parserUnit([]string{"parser/c03p.go"},
 				Harness{Fn: "ZZC03Parser", Quick: p("E", 1, "INS", 26), Thorough: p("E", 2, "INS", 41), ThoroughBudget: 20 * time.Minute, Expect: []string{"accepted", "rejected", "witness:end"}},
+				Harness{Fn: "ZZC03Locate", Quick: p("K", 3), Thorough: p("K", 4), Expect: []string{"locate-ok", "witness:end"}},
 				Harness{Fn: "ZZC03Tokens", Quick: p("L", 2), Thorough: p("L", 3), ThoroughBudget: 25 * time.Minute, Expect: []string{"accepted", "rejected", "witness:end"}},
 			),
 		},
